@@ -79,6 +79,23 @@ Theorem C07_im1_round_trip : forall cpu dat, WF cpu -> g_Memory cpu = UserMem ->
   ram (g_W cpu') = upd (upd (ram (g_W cpu)) sp2 (lo (g_PC cpu))) sp1 (hi (g_PC cpu)).
 Proof. intros cpu dat H. cbv zeta. rewrite iter_ok by exact H. exact (im1_round_trip impl_unspec cpu dat H). Qed.
 Print Assumptions C07_im1_round_trip.
+(* mode 2, handler EI ; RETI at the address stored in the vector table: three Steps *)
+Theorem C07_im2_round_trip : forall cpu v dat, WF cpu -> g_Memory cpu = UserMem ->
+  g_Interrupt cpu = Some (mk_Interrupt 1 (v :: dat)) -> g_IFF1 cpu = true -> g_IM cpu = 2 ->
+  let sp2 := u16 (g_SP cpu - 2) in let sp1 := u16 (sp2 + 1) in
+  let t := mk16 (g_IR_Hi cpu) (Z.land v 254) in
+  let h := mk16 (u8 (ram (g_W cpu) (u16 (t + 1)))) (u8 (ram (g_W cpu) t)) in
+  sp2 <> t -> sp2 <> u16 (t + 1) -> sp1 <> t -> sp1 <> u16 (t + 1) ->
+  u8 (ram (g_W cpu) h) = 251 -> u8 (ram (g_W cpu) (u16 (h + 1))) = 237 -> u8 (ram (g_W cpu) (u16 (u16 (h + 1) + 1))) = 77 ->
+  sp2 <> h -> sp2 <> u16 (h + 1) -> sp2 <> u16 (u16 (h + 1) + 1) -> sp1 <> h -> sp1 <> u16 (h + 1) -> sp1 <> u16 (u16 (h + 1) + 1) ->
+  let cpu' := iter 3 cpu in
+  g_GPR cpu' = g_GPR cpu /\ g_Alternate cpu' = g_Alternate cpu /\ g_IX cpu' = g_IX cpu /\ g_IY cpu' = g_IY cpu /\
+  g_SP cpu' = g_SP cpu /\ g_PC cpu' = g_PC cpu /\ g_IFF1 cpu' = true /\ g_IFF2 cpu' = true /\
+  g_IM cpu' = g_IM cpu /\ g_IR_Hi cpu' = g_IR_Hi cpu /\ g_IR_Lo cpu' = r_tick (r_tick (r_tick (g_IR_Lo cpu))) /\
+  g_Interrupt cpu' = None /\
+  ram (g_W cpu') = upd (upd (ram (g_W cpu)) sp2 (lo (g_PC cpu))) sp1 (hi (g_PC cpu)).
+Proof. intros cpu v dat H. cbv zeta. rewrite iter_ok by exact H. exact (im2_round_trip impl_unspec cpu v dat H). Qed.
+Print Assumptions C07_im2_round_trip.
 (* the premises are satisfiable *)
 Definition nmi_demo : CPU :=
   s_Interrupt (s_W (s_SP (s_PC cpu0 4660) 36864) (mk_World (fun a => if a =? 102 then 237 else if a =? 103 then 69 else 0) [] []))
